@@ -119,6 +119,53 @@ func ruleCandleUpdate(c *Ctx) {
 		return true
 	})
 
+	// a local defined from the j-th result of a private helper whose returns are prices[k]
+	s.walk(func(m ast.Node) bool {
+		as, ok := m.(*ast.AssignStmt)
+		if !ok || len(as.Rhs) != 1 || len(as.Lhs) < 2 {
+			return true
+		}
+		cx, ok := unparen(as.Rhs[0]).(*ast.CallExpr)
+		if !ok {
+			return true
+		}
+		f := Callee(info, cx)
+		if f == nil {
+			return true
+		}
+		h := c.P.ByObj[f]
+		isHelper := false
+		for _, ph := range c.P.privateHelpers(s.Fn) {
+			isHelper = isHelper || ph == h
+		}
+		if h == nil || !isHelper || h.Decl.Body == nil {
+			return true
+		}
+		for j, l := range as.Lhs {
+			o := identObj(info, l)
+			if o == nil {
+				continue
+			}
+			walkAll(h.Decl.Body, func(k ast.Node) bool {
+				rs, ok := k.(*ast.ReturnStmt)
+				if !ok || len(rs.Results) != len(as.Lhs) {
+					return true
+				}
+				if defs[o] == nil {
+					defs[o] = map[int64]bool{}
+				}
+				if ix, ok := unparen(rs.Results[j]).(*ast.IndexExpr); ok && identObj(h.Pkg.TypesInfo, ix.X) == pricesObj {
+					if kk, ok := constInt(h.Pkg.TypesInfo, ix.Index); ok {
+						defs[o][kk] = true
+						return true
+					}
+				}
+				defs[o][-1] = true
+				return true
+			})
+		}
+		return true
+	})
 	pos := map[string]int64{"Open": 0, "High": 1, "Low": 2, "Close": 3}
 	timeOf := map[string]string{"Open": "OpenTime", "Close": "CloseTime"}
 	var tsObj types.Object
@@ -342,19 +389,24 @@ func ruleCandleOutput(c *Ctx) {
 	}
 	info := s.Info
 	// (a) the serialising loop ranges over a slice that was sorted ascending on every path
-	var loops []*ast.RangeStmt
+	type serLoop struct {
+		X   ast.Expr
+		pos token.Pos
+	}
+	var loops []serLoop
 	s.walk(func(m ast.Node) bool {
-		if rs, ok := m.(*ast.RangeStmt); ok {
+		if li := asLoop(info, m); li != nil {
 			has := false
-			walkAll(rs.Body, func(k ast.Node) bool {
+			walkAll(li.Body, func(k ast.Node) bool {
 				if cx, ok := k.(*ast.CallExpr); ok && CalleeName(info, cx) == fnSerializeCd {
 					has = true
 				}
 				return !has
 			})
-
-			if has {
-				loops = append(loops, rs)
+			if has && li.Over != nil {
+				loops = append(loops, serLoop{li.Over, li.Node.Pos()})
+			} else if has {
+				c.Violate(rule, s.Name, "candles-emitted-in-time-order", c.P.Pos(li.Node.Pos()), "the loop that serializes the candles does not iterate over a slice (cannot establish time order)", nil)
 			}
 		}
 		return true
@@ -364,12 +416,12 @@ func ruleCandleOutput(c *Ctx) {
 	for _, rs := range loops {
 		t := info.TypeOf(rs.X)
 		if _, isMap := t.Underlying().(*types.Map); isMap {
-			c.Violate(rule, s.Name, "candles-emitted-in-time-order", c.P.Pos(rs.Pos()), "candles are serialized while ranging over the candle map: Go map order is random, the output rows are not in time order", nil)
+			c.Violate(rule, s.Name, "candles-emitted-in-time-order", c.P.Pos(rs.pos), "candles are serialized while ranging over the candle map: Go map order is random, the output rows are not in time order", nil)
 			continue
 		}
 		o := identObj(info, rs.X)
 		if o == nil {
-			c.Violate(rule, s.Name, "candles-emitted-in-time-order", c.P.Pos(rs.Pos()), "the serialising loop does not range over a local slice; cannot establish that it was sorted", nil)
+			c.Violate(rule, s.Name, "candles-emitted-in-time-order", c.P.Pos(rs.pos), "the serialising loop does not range over a local slice; cannot establish that it was sorted", nil)
 			continue
 		}
 		asc := true
@@ -435,7 +487,7 @@ func ruleCandleOutput(c *Ctx) {
 		}
 		r := s.Run(Query{Target: func(sub, top ast.Node) bool { return sub == ast.Node(rs.X) }, Barrier: sorted})
 		if !asc {
-			c.Violate(rule, s.Name, "candles-emitted-in-time-order", c.P.Pos(rs.Pos()), "the candle times are sorted with an order that is not ascending: "+why, nil)
+			c.Violate(rule, s.Name, "candles-emitted-in-time-order", c.P.Pos(rs.pos), "the candle times are sorted with an order that is not ascending: "+why, nil)
 		} else {
 			c.reportHits(rule, s, "candles-emitted-in-time-order", r, "the serialising loop ranges over the window start times sorted ascending on every path", "candles can be serialized from an unsorted list of window start times (output not in time order)")
 		}
@@ -501,11 +553,11 @@ func ruleCandleOutput(c *Ctx) {
 	order := func(sc *Scope, sumKey, avgKey func(ast.Expr) bool) (string, bool) {
 		var seq []string
 		sc.walk(func(m ast.Node) bool {
-			if rs, ok := m.(*ast.RangeStmt); ok {
+			if li := asLoop(sc.Info, m); li != nil && li.Over != nil {
 				switch {
-				case sumKey(rs.X):
+				case sumKey(li.Over):
 					seq = append(seq, "sum")
-				case avgKey(rs.X):
+				case avgKey(li.Over):
 					seq = append(seq, "avg")
 				}
 			}
@@ -568,32 +620,32 @@ func ruleCandlerAccum(c *Ctx) {
 		}
 		info := s.Info
 		pkgShort := s.Fn.PkgShort()
-		var loop *ast.RangeStmt
+		var loop *loopInfo
 		s.walk(func(m ast.Node) bool {
-			if rs, ok := m.(*ast.RangeStmt); ok && loop == nil {
+			if li := asLoop(info, m); li != nil && loop == nil {
 				has := false
-				walkAll(rs.Body, func(k ast.Node) bool {
-					if cx, ok := k.(*ast.CallExpr); ok && CalleeName(info, cx) == fnAddCandle {
-						has = true
+				for _, st := range li.Body.List { // AddCandle is a direct statement of the row loop
+					if es, ok := st.(*ast.ExprStmt); ok {
+						if cx, ok := unparen(es.X).(*ast.CallExpr); ok && CalleeName(info, cx) == fnAddCandle {
+							has = true
+						}
 					}
-					return !has
-				})
-
+				}
 				if has {
-					loop = rs
+					loop = li
 				}
 			}
 			return true
 		})
-
 		if loop == nil {
-			c.Undecided(rule, s.Name, "row-loop", "no range loop calling AddCandle found")
+			c.Undecided(rule, s.Name, "row-loop", "no loop calling AddCandle found")
 			continue
 		}
-		iObj, tObj := identObj(info, loop.Key), identObj(info, loop.Value)
+		iObj := loop.Index
+		isT := func(e ast.Expr) bool { return loop.isElem(info, e) }
 		// the loop ranges over the time column
 		tsFromGetTime := false
-		if o := identObj(info, loop.X); o != nil {
+		if o := identObj(info, loop.Over); loop.Over != nil && o != nil {
 			s.walk(func(m ast.Node) bool {
 				if as, ok := m.(*ast.AssignStmt); ok && len(as.Rhs) == 1 && len(as.Lhs) >= 1 && identObj(info, as.Lhs[0]) == o {
 					if cx, ok := unparen(as.Rhs[0]).(*ast.CallExpr); ok && strings.HasSuffix(CalleeName(info, cx), ".GetTime") {
@@ -604,7 +656,7 @@ func ruleCandlerAccum(c *Ctx) {
 			})
 
 		}
-		c.Check(tsFromGetTime && iObj != nil && tObj != nil, rule, s.Name, "row-loop-over-time-column", c.P.Pos(loop.Pos()), "the row loop ranges (index, time) over the input's time column")
+		c.Check(tsFromGetTime && iObj != nil, rule, s.Name, "row-loop-over-time-column", c.P.Pos(loop.Node.Pos()), "the row loop ranges (index, time) over the input's time column")
 		// direct statements of the loop body
 		var getIdx, addIdx, cntIdx = -1, -1, -1
 		var addCall *ast.CallExpr
@@ -613,7 +665,7 @@ func ruleCandlerAccum(c *Ctx) {
 			case *ast.AssignStmt:
 				if len(x.Rhs) == 1 {
 					if cx, ok := unparen(x.Rhs[0]).(*ast.CallExpr); ok && CalleeName(info, cx) == fnGetCandle {
-						if len(cx.Args) >= 1 && identObj(info, cx.Args[0]) == tObj {
+						if len(cx.Args) >= 1 && isT(cx.Args[0]) {
 							getIdx = i
 						}
 					}
@@ -628,10 +680,10 @@ func ruleCandlerAccum(c *Ctx) {
 				}
 			}
 		}
-		c.Check(getIdx >= 0 && addIdx > getIdx, rule, s.Name, "candle-of-own-window", c.P.Pos(loop.Pos()), "every row first selects the candle of its own time (GetCandle(t, …)) and then updates it, unconditionally")
-		c.Check(cntIdx >= 0, rule, s.Name, "count-once-per-row", c.P.Pos(loop.Pos()), "Count is incremented exactly once per input row (a direct statement of the row loop): averages divide by the number of rows")
+		c.Check(getIdx >= 0 && addIdx > getIdx, rule, s.Name, "candle-of-own-window", c.P.Pos(loop.Node.Pos()), "every row first selects the candle of its own time (GetCandle(t, …)) and then updates it, unconditionally")
+		c.Check(cntIdx >= 0, rule, s.Name, "count-once-per-row", c.P.Pos(loop.Node.Pos()), "Count is incremented exactly once per input row (a direct statement of the row loop): averages divide by the number of rows")
 		if addCall != nil {
-			okArgs := len(addCall.Args) >= 2 && identObj(info, addCall.Args[0]) == tObj
+			okArgs := len(addCall.Args) >= 2 && isT(addCall.Args[0])
 			var cols []types.Object
 			for _, a := range addCall.Args[1:] {
 				ix, ok := unparen(a).(*ast.IndexExpr)
@@ -733,7 +785,7 @@ func ruleCandlerAccum(c *Ctx) {
 			return true
 		})
 
-		c.Check(okSum, rule, s.Name, "sum-adds-own-row-element", c.P.Pos(loop.Pos()), "SumMap[name] accumulates (+=) the row's own element of the column with the same name")
+		c.Check(okSum, rule, s.Name, "sum-adds-own-row-element", c.P.Pos(loop.Node.Pos()), "SumMap[name] accumulates (+=) the row's own element of the column with the same name")
 	}
 }
 
@@ -785,30 +837,60 @@ func ruleGetCandle(c *Ctx) {
 		}
 		return false
 	}
-	r := s.Run(Query{Target: func(sub, top ast.Node) bool {
-		rs, ok := sub.(*ast.ReturnStmt)
-		if !ok || len(rs.Results) != 1 {
-			return false
-		}
-		if ix, ok := unparen(rs.Results[0]).(*ast.IndexExpr); ok && fieldKey(info, ix.X) == "contrib/candler.Candler.CMap" && identObj(info, ix.Index) == ct {
-			return false // the map entry of the window start
-		}
-		return true
-	}, Exempt: eq})
-	c.reportHits(rule, s, "reuse-only-for-same-window", r, "a candle other than CMap[window start] is returned only on the edge where its StartTime equals the row's window start", "GetCandle can hand back a candle of another window (rows are merged into the wrong candle)")
-	// creation keyed and started with the same window start
-	okNew := false
+	// locals that hold the map entry of the window start (v := CMap[ct] / v, ok := CMap[ct]) or a
+	// candle created with that window start (v := NewCandle(ct, …))
+	const cmap = "contrib/candler.Candler.CMap"
+	isEntry := func(e ast.Expr) bool {
+		ix, ok := unparen(e).(*ast.IndexExpr)
+		return ok && fieldKey(info, ix.X) == cmap && identObj(info, ix.Index) == ct
+	}
+	isNew := func(e ast.Expr) bool {
+		cx, ok := unparen(e).(*ast.CallExpr)
+		return ok && strings.HasSuffix(CalleeName(info, cx), "candler.NewCandle") && len(cx.Args) >= 1 && identObj(info, cx.Args[0]) == ct
+	}
+	entryVars, newVars := map[types.Object]bool{}, map[types.Object]bool{}
 	s.walk(func(m ast.Node) bool {
-		if as, ok := m.(*ast.AssignStmt); ok && len(as.Lhs) == 1 && len(as.Rhs) == 1 {
-			if ix, ok := unparen(as.Lhs[0]).(*ast.IndexExpr); ok && fieldKey(info, ix.X) == "contrib/candler.Candler.CMap" && identObj(info, ix.Index) == ct {
-				if cx, ok := unparen(as.Rhs[0]).(*ast.CallExpr); ok && strings.HasSuffix(CalleeName(info, cx), "candler.NewCandle") && len(cx.Args) >= 1 && identObj(info, cx.Args[0]) == ct {
-					okNew = true
+		if as, ok := m.(*ast.AssignStmt); ok && len(as.Rhs) == 1 && len(as.Lhs) >= 1 {
+			if o := identObj(info, as.Lhs[0]); o != nil {
+				if isEntry(as.Rhs[0]) {
+					entryVars[o] = true
+				}
+				if isNew(as.Rhs[0]) {
+					newVars[o] = true
 				}
 			}
 		}
 		return true
 	})
-
+	// a created candle counts as "the entry" once it was stored under the window start
+	stored := map[types.Object]bool{}
+	okNew := false
+	s.walk(func(m ast.Node) bool {
+		if as, ok := m.(*ast.AssignStmt); ok && len(as.Lhs) == 1 && len(as.Rhs) == 1 && isEntry(as.Lhs[0]) {
+			if isNew(as.Rhs[0]) {
+				okNew = true
+			}
+			if o := identObj(info, as.Rhs[0]); o != nil && newVars[o] {
+				okNew = true
+				stored[o] = true
+			}
+		}
+		return true
+	})
+	r := s.Run(Query{Target: func(sub, top ast.Node) bool {
+		rs, ok := sub.(*ast.ReturnStmt)
+		if !ok || len(rs.Results) != 1 {
+			return false
+		}
+		if isEntry(rs.Results[0]) {
+			return false // the map entry of the window start
+		}
+		if o := identObj(info, rs.Results[0]); o != nil && (entryVars[o] || stored[o]) {
+			return false
+		}
+		return true
+	}, Exempt: eq})
+	c.reportHits(rule, s, "reuse-only-for-same-window", r, "a candle other than CMap[window start] is returned only on the edge where its StartTime equals the row's window start", "GetCandle can hand back a candle of another window (rows are merged into the wrong candle)")
 	c.Check(okNew, rule, s.Name, "new-candle-keyed-by-its-start", c.P.Pos(s.Body.Pos()), "a new candle is stored under the window start it is created with")
 }
 
